@@ -1,3 +1,47 @@
-import SonicModel.Impl.Get
+/-
+  C12 — lazy iterators yield exactly the members of the container, then stop.
+-/
+import SonicModel.Lemmas.IterRefine
+import SonicModel.Impl.Err
 namespace Sonic.Thm.C12
+open Sonic Gen Impl Spec
+
+/-- **arrays**: for every input, draining the checked array iterator yields exactly one span per
+    leading well-formed element of the first value (its exact source span, no whitespace), then a
+    clean end iff the container is well-formed, otherwise one error at the first violation.
+    Bytes after the container are never looked at. -/
+theorem array_iter_eq_spec (buf : Buf) : drainArr buf 0 true = arrayItems buf (skipWs buf 0) :=
+  drainArr_eq_spec buf
+
+/-- **objects**: the same with decoded member names -/
+theorem object_iter_eq_spec (buf : Buf) : drainObj buf 0 true = objectItems buf (skipWs buf 0) :=
+  drainObj_eq_spec buf
+
+/-- every span the specification lists is a well-formed value without surrounding whitespace -/
+theorem array_items_wf (buf : Buf) (p e : Nat) (rest : List (Nat × Nat)) (ok : Bool)
+    (h : arrayGo buf p = ((p, e) :: rest, ok)) : value false (Spec.fuelFor buf) buf p = .ok e := by
+  rw [arrayGo_unfold] at h
+  cases hv : value false (Spec.fuelFor buf) buf p with
+  | ok e' => simp [hv] at h; rw [h.1.1]
+  | err => simp [hv] at h
+  | fuel => simp [hv] at h
+
+/-- latch (shared with C20): once the end or an error was yielded nothing more is -/
+theorem latch (steps : List (Option Bool)) : polls true steps = steps.map (fun _ => none) := by
+  induction steps with
+  | nil => rfl
+  | cons s rest ih => simp [polls, pollLatch, ih]
+
+/-! non-vacuity -/
+/-- `[1 , "a]" ,[2]] x` -/
+def ex1 : Buf := #[91, 49, 32, 44, 32, 34, 97, 93, 34, 32, 44, 91, 50, 93, 93, 32, 120]
+example : arrayItems ex1 0 = ([(1, 2), (5, 9), (11, 14)], true) := by decide +kernel
+example : drainArr ex1 0 true = ([(1, 2), (5, 9), (11, 14)], true) := by decide +kernel
+/-- `{"a":1,"b":[]}` -/
+def ex2 : Buf := #[123, 34, 97, 34, 58, 49, 44, 34, 92, 117, 48, 48, 54, 50, 34, 58, 91, 93, 125]
+example : objectItems ex2 0 = ([([97], 5, 6), ([98], 16, 18)], true) := by decide +kernel
+/-- `[1 2]` : one item then an error -/
+def ex3 : Buf := #[91, 49, 32, 50, 93]
+example : drainArr ex3 0 true = ([(1, 2)], false) := by decide +kernel
+
 end Sonic.Thm.C12
